@@ -3,6 +3,7 @@
 package system
 
 import (
+	dtpb "github.com/google/fhir/go/proto/google/fhir/proto/r4/core/datatypes_go_proto"
 	"time"
 
 	"github.com/verily-src/fhirpath-go/internal/verifrt"
@@ -150,20 +151,25 @@ func VerifHarness_C09_DateRoundTripMonotone() {
 }
 
 // C09-B: DateTime + / - calendar and clock units at every precision (no offset): same precision, equals the reference.
-func verifDateTimeAddSub(sub bool, clockUnits bool) {
+func verifDateTimeAddSub(sub bool, clockUnits bool, half int) {
 	verifSplitYM = true
 	verifrt.SplitCalendar()
 	var dt DateTime
 	var c verifCivil
+	// half: -1 every layout; 0 / 1 one half of them (the addition of calendar units is two harnesses, to share the work)
 	if verifrt.Thorough() {
 		dt, c = verifDateTime("dt", false)
+		verifrt.Assume(half < 0 || c.rank%2 == half)
 	} else {
 		// quick: four representative layouts (year, month, day, second with offset designator)
 		ls := []int{0, 1, 2, 9}
 		if !sub {
 			ls = []int{0, 1, 2, 3} // Add re-parses its own rendering: sub-day layouts with seconds are thorough-only
 		}
-		dt, c = verifDateTimeL("dt", false, ls[verifrt.Choose("dt.layoutQ", 4)])
+		if half >= 0 {
+			ls = []int{ls[half], ls[half+2]}
+		}
+		dt, c = verifDateTimeL("dt", false, ls[verifrt.Choose("dt.layoutQ", len(ls))])
 	}
 	units := []string{"year", "years", "month", "months", "week", "weeks", "day", "days", "hour", "hours", "minute", "minutes", "second", "seconds", "millisecond"}
 	// the calendar units (year .. day) and the clock units (hour .. millisecond) are two harnesses, to share the work
@@ -236,10 +242,11 @@ func verifDateTimeAddSub(sub bool, clockUnits bool) {
 	verifrt.Reach("end")
 }
 
-func VerifHarness_C09_DateTimeAdd()           { verifDateTimeAddSub(false, false) }
-func VerifHarness_C09_DateTimeSub()           { verifDateTimeAddSub(true, false) }
-func VerifHarness_C09_DateTimeAddClockUnits() { verifDateTimeAddSub(false, true) }
-func VerifHarness_C09_DateTimeSubClockUnits() { verifDateTimeAddSub(true, true) }
+func VerifHarness_C09_DateTimeAdd()             { verifDateTimeAddSub(false, false, 0) }
+func VerifHarness_C09_DateTimeAddOtherLayouts() { verifDateTimeAddSub(false, false, 1) }
+func VerifHarness_C09_DateTimeSub()             { verifDateTimeAddSub(true, false, -1) }
+func VerifHarness_C09_DateTimeAddClockUnits()   { verifDateTimeAddSub(false, true, -1) }
+func VerifHarness_C09_DateTimeSubClockUnits()   { verifDateTimeAddSub(true, true, -1) }
 
 // C09-B2: clock units on DateTimes that carry an offset (whole-hour, half-hour and 45-minute zones): the result keeps
 // layout and offset and equals the instant plus the amount truncated to the value's precision; (x + q) - q = x.
@@ -363,6 +370,31 @@ func VerifHarness_C09_LargeDayAndWeekAmounts() {
 			got, err = x.Add(q)
 		}
 		verifrt.Assert(err == nil && got.date.Unix() == x.date.Unix()+days*86400, "date-moves-by-exactly-that-many-calendar-days")
+	}
+	verifrt.Reach("end")
+}
+
+// C09: a month-precision element may stand on any day of its month (the proto keeps the day it was built from):
+// subtracting n months lands in the month n before it, whatever that day is - also the 29th to 31st, which have no
+// counterpart in every month.
+func VerifHarness_C09_MonthPrecisionValuesOnAnyDay() {
+	day := verifrt.NondetIntRange("day", 1, 31)
+	n := verifrt.Choose("months", 15) // (case-split: with both symbolic the solver does not finish the no-counterexample query)
+	us := time.Date(2020, 3, day, 0, 0, 0, 0, time.UTC).UnixMicro()
+	q := verifQty(n, "months")
+	wantY, wantM := 2020, 3-n
+	for wantM < 1 {
+		wantM, wantY = wantM+12, wantY-1
+	}
+	want := string([]byte{byte('0' + wantY/1000), byte('0' + wantY/100%10), byte('0' + wantY/10%10), byte('0' + wantY%10), '-', byte('0' + wantM/10), byte('0' + wantM%10)})
+	if verifrt.NondetBool("dateTime") {
+		x, err := DateTimeFromProto(&dtpb.DateTime{ValueUs: us, Precision: dtpb.DateTime_MONTH, Timezone: "Z"})
+		got, err2 := x.Sub(q)
+		verifrt.Assert(err == nil && err2 == nil && got.String() == want+"T", "month-precision-datetime-minus-months")
+	} else {
+		x, err := DateFromProto(&dtpb.Date{ValueUs: us, Precision: dtpb.Date_MONTH, Timezone: "Z"})
+		got, err2 := x.Sub(q)
+		verifrt.Assert(err == nil && err2 == nil && got.String() == want, "month-precision-date-minus-months")
 	}
 	verifrt.Reach("end")
 }
